@@ -470,11 +470,11 @@ Qed.
 
 Section Final.
 Variable D : desc.
-Hypothesis Hwf : wf_desc D.
+Hypothesis Hwf : wf_keys D.
 Hypothesis Hnum : forall m, In m (d_msgs D) -> NoDup (map f_num (m_fields m)).
 
 Lemma keys_nodup : NoDup (all_keys D).
-Proof. exact (proj2 (proj1 Hwf)). Qed.
+Proof. exact (proj2 Hwf). Qed.
 
 Lemma exposed_key_in m k : exposed_key_b m k = true -> In k (real_oneof_keys m).
 Proof.
@@ -706,7 +706,7 @@ Proof.
     destruct (lookup S k2) as [[|r2]|]; try discriminate. eauto. }
   unfold set_consistent. apply forallb_forall. intros [k e] Hin. cbn [fst snd].
   pose proof (lookup_In S Hnd k e Hin) as Hl. destruct e as [|r]; [exfalso; apply (Hnp k Hl)|].
-  apply (entry_consistent_of D (conj Hwk Hj) Hnum S HO HI Hclosed (Hnames Hj) k r Hl).
+  apply (entry_consistent_of D Hwk Hnum S HO HI Hclosed (Hnames Hj) k r Hl).
 Qed.
 
 (* a decision procedure for wf_paths *)
